@@ -9,13 +9,43 @@ NT = lambda acc, rej, ab, obs, runs: (not ab) and (any(r["kind"] == "c" for r in
 WHICH = ("c11",)
 
 
+def edited_file(ctx):
+    """the file was edited after Lithium loaded it (an editor, another tool): a run whose first test rejects — and a
+    check-only run that rejects — still must not write to it, for every strategy.  (An ACCEPTING check-only test on an
+    edited file is not judged: run() then restores the bytes it loaded, see DESIGN.md §5 "file changed under Lithium".)"""
+    from .. import driver, scripts
+    for name, opts in drv.STRATS:
+        for kind, loaded, now in (("line", b"a\nb\nc\n", b"a\nb\nc\nedited\n"), ("char", b"abc", b"xyz"), ("line", b"a\nb\n", b"")):
+            for verdict in ("r",):
+                s = driver.Session(None, kind=kind, from_file=loaded)
+                try:
+                    s.path.write_bytes(now)
+                    o = s.run(scripts.make_real_strategy(name, opts), verdict)
+                finally:
+                    s.close()
+                case = dict(strategy=name, splitter=kind, loaded=common.enc_bytes(loaded), on_disk=common.enc_bytes(now), verdict=verdict,
+                            stream="edited-file")
+                ctx.evaluations += 1
+                ctx.bump("edited-file")
+                if o.exit == "x":
+                    ctx.fail("rejected-original", f"{name}: run() raised {o.exc!r}", case)
+                elif o.wrote or o.disk != now or len(o.calls) != 1:
+                    key = "check-only" if name == "check-only" else "rejected-original"
+                    ctx.fail(key, f"{name}: the file was edited to {now!r} after loading {loaded!r}; the only test answered {verdict!r}; afterwards "
+                             f"the file holds {o.disk!r} (written: {o.wrote}), {len(o.calls)} tests ran", case)
+                elif (o.exit == "r0") != (verdict == "a"):
+                    ctx.fail("status", f"{name}: exit {o.exit} after the only test answered {verdict!r}", case)
+
+
 def search(ctx):
+    edited_file(ctx)
     drv.d1(ctx, WHICH, 6000, NT, do_model=False, allow_abort=False)
     drv.d2_random(ctx, WHICH, NT, 600, do_model=False, aborts=False)
 
 
 def run(ctx) -> int:
     proof = common.proof_stage(ctx.pid)
+    edited_file(ctx)
     drv.d1(ctx, WHICH, 20000 if ctx.thorough else 5000, NT, allow_abort=False)
     drv.d2_random(ctx, WHICH, NT, 3000 if ctx.thorough else 1000, aborts=False)
     return common.decide(ctx, proof, RULE, search=search)
